@@ -156,6 +156,30 @@ class PackageScan(Unit):
                 if isinstance(node, ast.FunctionDef):
                     f = scan_function(node, mnames, cnames) if mod.__name__ not in EXEMPT_MODULES else []
                     out.append(("%s:%s:%d" % (mod.__name__, node.name, node.lineno), f))
+        # shared objects whose mere USE changes them: one-shot iterators / generators stored at module or class level
+        # (a membership test or a loop over them consumes them for every later command)
+        import collections.abc
+        import types
+
+        self.iterators = []
+        for mod in package_modules():
+            try:
+                tree = ast.parse(inspect.getsource(mod))
+            except (OSError, TypeError):
+                continue
+            used = set()  # names read inside functions (after import time)
+            for fnode in ast.walk(tree):
+                if isinstance(fnode, (ast.FunctionDef, ast.Lambda)):
+                    for n in ast.walk(fnode):
+                        if isinstance(n, ast.Name):
+                            used.add(n.id)
+                        elif isinstance(n, ast.Attribute):
+                            used.add(n.attr)
+            holders = [(mod.__name__, mod)] + [("%s.%s" % (mod.__name__, n), c) for n, c in vars(mod).items() if isinstance(c, type) and c.__module__ == mod.__name__]
+            for hname, h in holders:
+                for k, v in list(vars(h).items()):
+                    if isinstance(v, (types.GeneratorType, collections.abc.Iterator)) and not isinstance(v, (type, types.ModuleType)) and k in used:
+                        self.iterators.append("%s.%s (%s)" % (hname, k, type(v).__name__))
         return out
 
     def ensures(self, case, a, out, X):
@@ -165,6 +189,39 @@ class PackageScan(Unit):
         yield "C09", "package-scan-found-functions", len(out.value) > 100
         for name, findings in out.value:
             yield "C09", "frame:no-store-into-non-local-state:%s%s" % (name, (" (" + "; ".join(findings[:3]) + ")") if findings else ""), not findings
+        its = getattr(self, "iterators", [])
+        yield "C09", "frame:no-one-shot-iterator-shared-at-module-or-class-level%s" % ((" (" + "; ".join(its[:3]) + ")") if its else ""), not its
+
+
+class DecodeDeterminism(Unit):
+    """equal inputs give equal results: every command class (constructor CDB, decode, re-encode) and every decoder, called again with the same buffer and arguments after all the
+    other decoders have run, returns the same value / raises the same error (native, enumerated buffers)"""
+
+    name = "isolation/determinism"
+    properties = ("C09",)
+    level = "bounded"
+    bound_note = "four fixed buffers per decoder and argument tuple, READ CD on every MAIN CHANNEL SELECTION x EXPECTED SECTOR TYPE; each call as the first decoder call of a process, and three passes in one process; concrete native runs"
+
+    def run(self, X, case, a):
+        # every call observed as the very first decoder call of a process (a child forked per call from a pristine
+        # process), and in one process: forward, reverse, forward again
+        isolated = _observe_in_fresh_process("isolated", None)
+        runs = [isolated]
+        for order in ("forward", "reverse", "forward"):
+            o = observe_decoders(order)
+            o.update(observe_all(order))  # constructor CDB, decode, re-encode of every simple command class
+            runs.append(o)
+        return runs
+
+    def ensures(self, case, a, out, X):
+        if out.kind != "return":
+            yield "C09", "decoders-observable (raised %s: %s)" % (type(out.exc).__name__, str(out.exc)[:80]), False
+            return
+        runs = out.value
+        first = runs[0]
+        yield "C09", "decoders-observed", len(first) > 200
+        for k in sorted(first):
+            yield "C09", "same-result-whatever-was-decoded-before:%s" % k, all(r.get(k) == first[k] for r in runs[1:])
 
 
 # ------------------------------------------------------------------------------------------ (3) pairs
@@ -252,6 +309,7 @@ class Pairs(Unit):
 
 
 register(PackageScan())
+register(DecodeDeterminism())
 register(Pairs())
 
 
@@ -281,6 +339,30 @@ def observe_all(order="forward"):
     elif order == "subclass-first":
         classes = sorted(classes, key=lambda c: -len(c.__mro__))
     obs = {}
+    if order == "isolated":
+        import json as _json
+
+        for cls in classes:
+            r, w = os.pipe()
+            pid = os.fork()
+            if pid == 0:
+                try:
+                    os.close(r)
+                    os.write(w, _json.dumps(observe_one(cls)).encode())
+                finally:
+                    os._exit(0)
+            os.close(w)
+            data = b""
+            while True:
+                chunk = os.read(r, 65536)
+                if not chunk:
+                    break
+                data += chunk
+            os.close(r)
+            os.waitpid(pid, 0)
+            if data and _json.loads(data.decode()) is not None:
+                obs[L.layout_key(cls)] = _json.loads(data.decode())
+        return obs
     for cls in classes:
         key = L.layout_key(cls)
         lay = L.CDB[key]
@@ -298,6 +380,73 @@ def observe_all(order="forward"):
         except Exception as ex:  # an exception is an observation too
             obs[key] = ["raised", type(ex).__name__, str(ex)[:80]]
     return obs
+
+
+def observe_decoders(order="forward"):
+    """every data-in / sense decoder on a few fixed buffers (and READ CD on every MAIN CHANNEL SELECTION x EXPECTED SECTOR
+    TYPE): the outcome -- value or exception type -- as text"""
+    from .termination import decoder_functions, extra_args
+
+    jobs = []
+    for name, cls, fn, kind in decoder_functions():
+        extras = extra_args(name, fn)
+        if name.endswith("ReadCd.unmarshall_datain"):
+            extras = [{"lba": 0, "tl": 1, "est": e, "mcsb": m << 3, "c2ei": 0, "scsb": 0} for e in range(0, 6) for m in range(0, 32)]
+        for extra in extras:
+            for bi, buf in enumerate((bytes(64), bytes([0xFF]) * 64, bytes((7 * i + 3) & 0xFF for i in range(96)), bytes(2400))):
+                if name.endswith("ReadCd.unmarshall_datain") and bi != 3:
+                    continue
+                jobs.append((name, cls, fn, kind, extra, bi, buf))
+    if order == "reverse":
+        jobs = jobs[::-1]
+    obs = {}
+    if order == "isolated":
+        # every call is the FIRST decoder call of its process: fork a child per call from this (pristine) process
+        import json as _json
+
+        for job in jobs:
+            r, w = os.pipe()
+            pid = os.fork()
+            if pid == 0:
+                try:
+                    os.close(r)
+                    one = _run_decoder_job(job)
+                    os.write(w, _json.dumps(one).encode())
+                finally:
+                    os._exit(0)
+            os.close(w)
+            data = b""
+            while True:
+                chunk = os.read(r, 65536)
+                if not chunk:
+                    break
+                data += chunk
+            os.close(r)
+            os.waitpid(pid, 0)
+            if data:
+                k, v = _json.loads(data.decode())
+                obs[k] = v
+        return obs
+    for job in jobs:
+        k, v = _run_decoder_job(job)
+        obs[k] = v
+    return obs
+
+
+def _run_decoder_job(job):
+    name, cls, fn, kind, extra, bi, buf = job
+    if True:
+        kw = dict(extra)
+        args = [bytearray(buf)]
+        if "_type" in kw:
+            args = [kw.pop("_type")] + args
+        if kind == "class":
+            args = [cls] + args
+        key = "decode:%s%s#%d" % (name, "".join(",%s=%s" % kv for kv in sorted(extra.items())), bi)
+        try:
+            return key, ["value", repr(fn(*args, **kw))[:400]]
+        except Exception as ex:
+            return key, ["raised", type(ex).__name__]
 
 
 def _observe_in_fresh_process(order, prefix):
@@ -344,7 +493,12 @@ def _child(order, prefix_json):
                     f()
                 except Exception:
                     pass
-        obs = observe_all(order)
+        if order == "isolated":
+            obs = observe_decoders(order)
+            obs.update(observe_all(order))
+        else:
+            obs = observe_all(order)
+            obs.update(observe_decoders("reverse" if order == "reverse" else "forward"))
     print("OBS" + json.dumps(obs))
 
 
